@@ -100,21 +100,35 @@ def xml_of(tree_or_spec):
 
 
 def refs_into_client_server(spec):
-    """Types declared outside net/client and net/server that refer to a type declared inside them
-    (the shape behind the known C18/C20 finding)."""
+    """The shape behind the known C18/C20 finding: a generated net/client or net/server package gets
+    imported before the hand-written eolib.protocol.net package has run.  That happens when a type of a
+    directory that eolib/protocol/__init__.py reaches first (root, map, net) refers - directly, or through
+    other directories whose generated __init__ it thereby triggers - to a type declared in net/client or
+    net/server.  Returns the chain of directories, or []."""
     home = {n: p for n, (d, p) in spec.types().items()}
-    out = []
+    refs = {p: set() for p in spec.files}
     for path, f in spec.files.items():
-        if path in ("net/client", "net/server"):
-            continue
         for d in list(f.structs) + list(f.packets):
-            def visit(ins, body, i, depth, d=d, path=path):
+            def visit(ins, body, i, depth, path=path):
                 if ins.kind in ("field", "array") and ins.type:
-                    base = ins.type.split(":")[0]
-                    if home.get(base) in ("net/client", "net/server"):
-                        out.append((path, getattr(d, "name", None), base))
+                    b = home.get(ins.type.split(":")[0])
+                    if b is not None and b != path:
+                        refs[path].add(b)
             S.walk(d.body, visit)
-    return out
+    early = {"": None, "map": None, "net": None}
+    todo = list(early)
+    while todo:
+        a = todo.pop()
+        for b in sorted(refs.get(a, ())):
+            if b in ("net/client", "net/server"):
+                chain = [b, a]
+                while early.get(chain[-1]) is not None:
+                    chain.append(early[chain[-1]])
+                return list(reversed(chain))
+            if b not in early:
+                early[b] = a
+                todo.append(b)
+    return []
 
 
 def directory_cycle(spec):
